@@ -1,8 +1,10 @@
 from __future__ import annotations
 
 import heapq
+import io
 import itertools
 import math
+import pickle
 from functools import reduce
 from itertools import chain, product
 from numbers import Integral
@@ -24,6 +26,22 @@ from dask_array._expr import ArrayExpr
 from dask_array._core_utils import concatenate3, normalize_chunks
 from dask_array._utils import validate_axis
 from dask_array.io._from_map import _dumps5
+
+
+def _dumps5_nomemo(obj):
+    """``_dumps5`` without pickle's memo. The memo writes an object that occurs
+    twice once plus a back-reference, so the bytes encode object *identity*:
+    ``(c, c)`` and two equal-but-distinct tuples would hash differently.
+    ``fast`` mode writes every occurrence in full, making the bytes a function
+    of the value only."""
+    buf = io.BytesIO()
+    pickler = pickle.Pickler(buf, protocol=5)
+    pickler.fast = True
+    pickler.dump(obj)
+    out = buf.getvalue()
+    if b"__main__" in out:
+        return _dumps5(obj)
+    return out
 
 
 # ============================================================================
@@ -682,7 +700,7 @@ class Rechunk(ArrayExpr):
         # ``tokenize`` on any pickling failure.
         try:
             non_array = [self.operand(p) for p in self._parameters if p != "array"]
-            return "rechunk-merge-rc1" + hash_buffer_hex(_dumps5((self.array._name, *non_array)))
+            return "rechunk-merge-rc1" + hash_buffer_hex(_dumps5_nomemo((self.array._name, *non_array)))
         except Exception:
             return "rechunk-merge-" + tokenize(*self.operands)
 
